@@ -309,3 +309,151 @@ fn c13_ascii_fold_relation() {
     assert!(ra == (lx == ly));
     kani::cover!(ra && x != y, "a case pair");
 }
+
+// ------------------------------------------------------------------------------------------
+// C14-H1: Utf16Input / Ucs2Input on ARBITRARY u16 input (feature utf16)
+// ------------------------------------------------------------------------------------------
+#[cfg(feature = "utf16")]
+mod u16h {
+    use super::super::*;
+    use crate::cursor::{Backward, Direction, Forward};
+
+    fn is_high(u: u16) -> bool {
+        u >= 0xD800 && u <= 0xDBFF
+    }
+    fn is_low(u: u16) -> bool {
+        u >= 0xDC00 && u <= 0xDFFF
+    }
+
+    // @verif props=C14,C06 tier=quick builds=utf16 sub=u16h timeout=1800 unwind=6 bound="any 3 u16 code units (lone surrogates included), slice length 0..=3, every position" funcs="Utf16Input::next_right,next_left,next_right_pos,next_left_pos,peek_right,peek_left,pos_to_offset,try_move_right"
+    #[kani::proof]
+    #[kani::unwind(6)]
+    fn c14_utf16_primitives() {
+        let data: [u16; 3] = kani::any();
+        let len: usize = kani::any();
+        kani::assume(len <= 3);
+        let s = &data[..len];
+        let input = Utf16Input::new(s, kani::any());
+        let i: usize = kani::any();
+        kani::assume(i <= len);
+        let start = input.try_move_right(input.left_end(), i).unwrap();
+        // forward
+        let mut p = start;
+        let got = input.next_right(&mut p);
+        let np = input.next_right_pos(start);
+        if i == len {
+            assert!(got.is_none() && np.is_none() && p == start);
+        } else {
+            let paired = is_high(s[i]) && i + 1 < len && is_low(s[i + 1]);
+            let want = if paired {
+                0x10000 + ((((s[i] & 0x3FF) as u32) << 10) | (s[i + 1] & 0x3FF) as u32)
+            } else {
+                s[i] as u32
+            };
+            assert!(got == Some(want));
+            assert!(input.pos_to_offset(p) == i + if paired { 2 } else { 1 });
+            assert!(np == Some(p));
+            kani::cover!(paired, "a surrogate pair");
+            kani::cover!(is_high(s[i]) && !paired, "a lone high surrogate");
+        }
+        // backward
+        let mut q = start;
+        let gotl = input.next_left(&mut q);
+        let nq = input.next_left_pos(start);
+        if i == 0 {
+            assert!(gotl.is_none() && nq.is_none() && q == start);
+        } else {
+            let paired = is_low(s[i - 1]) && i >= 2 && is_high(s[i - 2]);
+            let want = if paired {
+                0x10000 + ((((s[i - 2] & 0x3FF) as u32) << 10) | (s[i - 1] & 0x3FF) as u32)
+            } else {
+                s[i - 1] as u32
+            };
+            assert!(gotl == Some(want));
+            assert!(input.pos_to_offset(q) == i - if paired { 2 } else { 1 });
+            assert!(nq == Some(q));
+        }
+        // round trip on a pair boundary: forward then backward returns to the start with the same element
+        if let Some(c) = got {
+            let mut back = p;
+            let again = input.next_left(&mut back);
+            // (a low surrogate that follows a high one pairs backwards even if we came from between them)
+            if !(i > 0 && is_high(s[i - 1]) && is_low(s[i])) {
+                assert!(again == Some(c) && back == start);
+            }
+        }
+    }
+
+    // @verif props=C14,C06 tier=quick builds=utf16 sub=u16h timeout=1800 unwind=6 bound="any 3 u16 code units, every position; Ucs2Input never pairs" funcs="Ucs2Input::next_right,next_left,next_right_pos,next_left_pos"
+    #[kani::proof]
+    #[kani::unwind(6)]
+    fn c14_ucs2_primitives() {
+        let data: [u16; 3] = kani::any();
+        let len: usize = kani::any();
+        kani::assume(len <= 3);
+        let s = &data[..len];
+        let input = Ucs2Input::new(s, kani::any());
+        let i: usize = kani::any();
+        kani::assume(i <= len);
+        let start = input.try_move_right(input.left_end(), i).unwrap();
+        let mut p = start;
+        let got = input.next_right(&mut p);
+        if i == len {
+            assert!(got.is_none() && p == start && input.next_right_pos(start).is_none());
+        } else {
+            assert!(got == Some(s[i] as u32) && input.pos_to_offset(p) == i + 1);
+            assert!(input.next_right_pos(start) == Some(p));
+        }
+        let mut q = start;
+        let gotl = input.next_left(&mut q);
+        if i == 0 {
+            assert!(gotl.is_none() && q == start && input.next_left_pos(start).is_none());
+        } else {
+            assert!(gotl == Some(s[i - 1] as u32) && input.pos_to_offset(q) == i - 1);
+            assert!(input.next_left_pos(start) == Some(q));
+        }
+        kani::cover!(i > 0 && i < len, "interior position");
+    }
+
+    // subrange_eq (backreferences) on u16 input
+    // @verif props=C14,C06 tier=quick builds=utf16 sub=u16h timeout=1800 unwind=8 bound="any 4 u16 code units; captured range i..j and position k anywhere; both directions" funcs="Utf16Input::subrange_eq,subinput"
+    #[kani::proof]
+    #[kani::unwind(8)]
+    fn c14_utf16_subrange_eq() {
+        let data: [u16; 4] = kani::any();
+        let input = Utf16Input::new(&data, false);
+        let (i, j, k): (usize, usize, usize) = (kani::any(), kani::any(), kani::any());
+        kani::assume(i <= j && j <= 4 && k <= 4);
+        let le = input.left_end();
+        let (pi, pj, pk) = (
+            input.try_move_right(le, i).unwrap(),
+            input.try_move_right(le, j).unwrap(),
+            input.try_move_right(le, k).unwrap(),
+        );
+        let n = j - i;
+        let fwd: bool = kani::any();
+        let mut p = pk;
+        let r = if fwd {
+            input.subrange_eq(Forward::new(), &mut p, pi..pj)
+        } else {
+            input.subrange_eq(Backward::new(), &mut p, pi..pj)
+        };
+        let fits = if fwd { k + n <= 4 } else { n <= k };
+        let mut same = fits;
+        if fits {
+            let base = if fwd { k } else { k - n };
+            let mut t = 0;
+            while t < n {
+                if data[i + t] != data[base + t] {
+                    same = false;
+                }
+                t += 1;
+            }
+        }
+        assert!(r == same);
+        if r {
+            assert!(input.pos_to_offset(p) == if fwd { k + n } else { k - n });
+        }
+        kani::cover!(r && n >= 2, "equal ranges of length >= 2");
+    }
+}
